@@ -205,6 +205,12 @@ func runCheck(spec *PropSpec, tier string, seed int, accept, verbose bool, overl
 		fmt.Printf("CHECK-BROKEN property=%s cannot load packages: %v\n", id, err)
 		return 2
 	}
+	if len(w.protoErrs) > 0 {
+		for _, e := range w.protoErrs {
+			fmt.Printf("CHECK-BROKEN property=%s close-only channel discipline no longer holds syntactically: %s\n", id, e)
+		}
+		return 2
+	}
 	loadS := time.Since(t0).Seconds()
 	// functions serving this property
 	var keys []string
